@@ -423,6 +423,11 @@ def aggregateVote (k : Keys) (c : RCfg) (b : Block) (sg : Sig) : M Unit := do
 
 /-! voter / proposer -/
 
+/-- `Voter.lastVotedQCView`: the highest view of a QC carried by a block voted for (the votes are the
+vote records of the ghost history, in signing order) -/
+def votedQCView (g : List GRec) : Nat :=
+  g.foldl (fun m r => match r with | .vote b _ => max m b.qc.view | _ => m) 0
+
 def voterVerify (k : Keys) (c : RCfg) (id : Nat) (b : Block) (agg : Option AggQC) : M (VRes Unit) := do
   let s ← get
   if b.view ≤ s.lastVoted then return .reject
@@ -431,6 +436,9 @@ def voterVerify (k : Keys) (c : RCfg) (id : Nat) (b : Block) (agg : Option AggQC
   | .panic => return .panic
   | .reject => return .reject
   | .ok () =>
+    -- `fix:` a77ccac — an aggregate-QC proposal must not build below a block already voted on
+    let s ← get
+    if agg.isSome && b.qc.view < votedQCView s.ghost then return .reject
     if b.parent != b.qc.hash then return .reject
     if b.qc.view ≥ b.view then return .reject
     if id != c.leader b.view then return .reject
